@@ -101,9 +101,12 @@ End Nub.
 
 (* ---------------------------------------------------------- Object3d.unique
      data = self.flatten()._data.round(10)
-     data = data[~np.all(np.isclose(data, 0), axis=1)]
+     is_nonzero = ~np.all(np.isclose(data, 0), axis=1)
+     data = data[is_nonzero]
      _, idx, inv = np.unique(data, axis=0, return_index=True, return_inverse=True)
      obj = self.__class__(data[np.sort(idx), : self.dim]); obj._data = data[np.sort(idx)]
+     idx = np.flatnonzero(is_nonzero)[idx]
+     inv = np.argsort(np.argsort(idx))[inv]
      return obj, idx, inv                                                        *)
 Section ObjUnique.
 Context {E K : Type} (cmp : K -> K -> comparison)
@@ -112,10 +115,17 @@ Context {E K : Type} (cmp : K -> K -> comparison)
 Definition obj_data (flat : list E) : list E :=
   filter (fun e => negb (iszero e)) (map rnd flat).
 
+(* np.flatnonzero(is_nonzero): positions, in the flattened input, of the
+   entries that are kept *)
+Definition obj_nzpos (flat : list E) : list nat :=
+  filter (fun i => negb (iszero (rnd (nth i flat d)))) (seq 0 (length flat)).
+
 Definition obj_unique (flat : list E) : list E * list nat * list nat :=
   let data := obj_data flat in
-  let '(_, idx, inv) := np_unique cmp (map key data) in
-  (map (fun i => nth i data d) (sort_nat idx), idx, inv).
+  let '(_, idx0, inv0) := np_unique cmp (map key data) in
+  let idx := map (fun i => nth i (obj_nzpos flat) 0) idx0 in
+  let rank := argsort_nat (argsort_nat idx) in
+  (map (fun i => nth i data d) (sort_nat idx0), idx, map (fun u => nth u rank 0) inv0).
 End ObjUnique.
 
 (* ---------------------------------------------------------- Rotation.unique
@@ -141,11 +151,15 @@ Definition rot_unique (flat : list E) : list E * list nat * list nat :=
   (map (fun i => nth i flat d) idx_sort, idx_sort, inv').
 
 (* number of values the call returns: 1 (object only), 2 or 3.  The early
-   return for an empty input ignores the two flags. *)
+   return for an empty input builds the tuple (empty object, [idx], [inv])
+   and unwraps it when it has a single member:
+     out = (self.empty(),) + (empty array if return_index) + (... if return_inverse)
+     return out if len(out) > 1 else out[0]                                      *)
 Definition rot_unique_arity (flat : list E) (return_index return_inverse : bool) : nat :=
+  let n := 1 + (if return_index then 1 else 0) + (if return_inverse then 1 else 0) in
   match flat with
-  | [] => 1
-  | _ => 1 + (if return_index then 1 else 0) + (if return_inverse then 1 else 0)
+  | [] => if Nat.ltb 1 n then n else 1
+  | _ => n
   end.
 Definition obj_unique_arity (return_index return_inverse : bool) : nat :=
   1 + (if return_index then 1 else 0) + (if return_inverse then 1 else 0).
@@ -157,8 +171,10 @@ End RotUnique.
          v2 = operations.outer(v).flatten().reshape(n_v, operations.size)
          data = v2.data.round(10)
          data_sorted[i] = data[i][np.lexsort(data[i].T)]
-         _, idx = np.unique(data_sorted, return_index=True, axis=0)
-         v = v[idx[::-1]]
+         _, idx_sym = np.unique(data_sorted, return_index=True, axis=0)
+         idx_sym = idx_sym[::-1]
+         v = v[idx_sym]
+         if return_index: idx = np.sort(idx)[idx_sym]
      return m, idx                                                               *)
 Section MillerUnique.
 Context {E K K2 : Type} (cmp : K -> K -> comparison) (cmp2 : K2 -> K2 -> comparison)
@@ -169,7 +185,8 @@ Definition miller_unique (use_symmetry : bool) (flat : list E) : list E * list n
   let '(v, idx, _) := obj_unique cmp rnd iszero key d flat in
   if use_symmetry then
     let '(_, idx2, _) := np_unique cmp2 (map okey v) in
-    (map (fun i => nth i v d) (rev idx2), idx2)
+    let idx_sym := rev idx2 in
+    (map (fun i => nth i v d) idx_sym, map (fun i => nth i (sort_nat idx) 0) idx_sym)
   else (v, idx).
 End MillerUnique.
 
